@@ -93,11 +93,12 @@ Proof.
         destruct H as [H|[]]. inversion H; subst. right. left. eauto.
   - destruct (svol s p0); simpl in H; auto.
   - simpl in H. auto.
-  - destruct (sfd s fd) as [[i o|d]|]; simpl in H; auto.
-  - destruct (sfd s fd) as [[i o|d]|]; simpl in H; auto.
-  - destruct (sfd s fd) as [[i o|d]|]; simpl in H; auto.
+  - destruct (sfd s fd) as [[i o|d g]|]; simpl in H; auto.
+  - destruct (sfd s fd) as [[i o|d g]|]; simpl in H; auto.
+  - destruct (sfd s fd) as [[i o|d g]|]; simpl in H; auto.
   - (* Fsync *)
-    destruct (sfd s fd) as [[i o|d]|]; simpl in H; auto.
+    destruct (sfd s fd) as [[i o|d g]|]; simpl in H; auto.
+    destruct (N.eqb g (sgen s d)); simpl in H; auto.
     left. destruct H as [H|[H|H]]; auto.
     + destruct (in_dir d p); auto.
     + apply filter_In in H as [H _]. auto.
@@ -120,18 +121,29 @@ Proof.
       * rewrite updP_other in H by assumption. auto.
     + auto.
     + apply in_app_or in H as [H|H]; [auto|]. destruct H as [H|[]]. inversion H.
+  - (* Mkdir *)
+    left. simpl in H. destruct H as [H|[H|H]].
+    + destruct (in_dir d p); [discriminate|auto].
+    + destruct (in_dir d p); [discriminate|auto].
+    + apply filter_In in H as [H _]. auto.
+  - (* Rmdir *)
+    left. simpl in H. destruct H as [H|[H|H]].
+    + destruct (in_dir d p); [discriminate|auto].
+    + destruct (in_dir d p); [discriminate|auto].
+    + apply filter_In in H as [H _]. auto.
   - auto.
 Qed.
 
-(** a durably present name stays so under every call except its own unlink
-    and a rename away from it *)
+(** a durably present name stays so under every call except its own unlink,
+    a rename away from it and the removal / replacement of its directory *)
 Lemma present_all_step s c q :
   present_all s q ->
   (forall dst, c = Rename q dst -> False) ->
   (c = Unlink q -> False) ->
+  (forall d, c = Mkdir d \/ c = Rmdir d -> in_dir d q = false) ->
   present_all (step s c) q.
 Proof.
-  intros (Hv & Hd & Hp) Hr Hu. unfold present_all.
+  intros (Hv & Hd & Hp) Hr Hu Hdir. unfold present_all.
   destruct c; simpl; try (repeat split; assumption).
   - destruct (svol s p) eqn:E.
     + destruct trunc; simpl; repeat split; assumption.
@@ -139,10 +151,11 @@ Proof.
       * destruct (path_dec q p) as [->|Hn]; [rewrite updP_same; eauto | rewrite updP_other by assumption; assumption].
       * intros v Hin. apply in_app_or in Hin as [Hin|[Hin|[]]]; [auto|]. inversion Hin. discriminate.
   - destruct (svol s p); simpl; repeat split; assumption.
-  - destruct (sfd s fd) as [[i o|d]|]; simpl; repeat split; assumption.
-  - destruct (sfd s fd) as [[i o|d]|]; simpl; repeat split; assumption.
-  - destruct (sfd s fd) as [[i o|d]|]; simpl; repeat split; assumption.
-  - destruct (sfd s fd) as [[i o|d]|]; simpl; try (repeat split; assumption).
+  - destruct (sfd s fd) as [[i o|d g]|]; simpl; repeat split; assumption.
+  - destruct (sfd s fd) as [[i o|d g]|]; simpl; repeat split; assumption.
+  - destruct (sfd s fd) as [[i o|d g]|]; simpl; repeat split; assumption.
+  - destruct (sfd s fd) as [[i o|d g]|]; simpl; try (repeat split; assumption).
+    destruct (N.eqb g (sgen s d)); simpl; [|repeat split; assumption].
     repeat split; try assumption.
     + destruct (in_dir d q); assumption.
     + intros v Hin. apply filter_In in Hin as [Hin _]. auto.
@@ -157,6 +170,10 @@ Proof.
     repeat split; try assumption.
     + rewrite updP_other by assumption. assumption.
     + intros v Hin. apply in_app_or in Hin as [Hin|[Hin|[]]]; [auto|]. inversion Hin; subst; congruence.
+  - rewrite (Hdir d) by auto. repeat split; try assumption.
+    intros v Hin. apply filter_In in Hin as [Hin _]. auto.
+  - rewrite (Hdir d) by auto. repeat split; try assumption.
+    intros v Hin. apply filter_In in Hin as [Hin _]. auto.
 Qed.
 
 (** ** The invariant of accepted traces *)
@@ -205,10 +222,10 @@ Proof.
   destruct c; simpl; try lia.
   - destruct (svol s p); [destruct trunc|]; simpl; lia.
   - destruct (svol s p); simpl; lia.
-  - destruct (sfd s fd) as [[i o|d]|]; simpl; lia.
-  - destruct (sfd s fd) as [[i o|d]|]; simpl; lia.
-  - destruct (sfd s fd) as [[i o|d]|]; simpl; lia.
-  - destruct (sfd s fd) as [[i o|d]|]; simpl; lia.
+  - destruct (sfd s fd) as [[i o|d g]|]; simpl; lia.
+  - destruct (sfd s fd) as [[i o|d g]|]; simpl; lia.
+  - destruct (sfd s fd) as [[i o|d g]|]; simpl; lia.
+  - destruct (sfd s fd) as [[i o|d g]|]; simpl; try lia. destruct (N.eqb g (sgen s d)); simpl; lia.
   - destruct (svol s src); simpl; lia.
   - destruct (svol s p); simpl; lia.
 Qed.
@@ -232,22 +249,23 @@ Proof.
       * right. right. left. exists fd, p, trunc. rewrite updN_same. auto.
       * rewrite updN_other by assumption. auto.
   - destruct (svol s p); simpl; auto.
-  - unfold fd_ino. destruct (sfd s fd) as [[i o|d]|] eqn:E; simpl; auto.
+  - unfold fd_ino. destruct (sfd s fd) as [[i o|d g]|] eqn:E; simpl; auto.
     destruct (N.eq_dec ino i) as [->|Hn].
     + right. right. right. left. exists fd, (W o len), len. rewrite E, updN_same. auto.
     + rewrite updN_other by assumption. auto.
-  - unfold fd_ino. destruct (sfd s fd) as [[i o|d]|] eqn:E; simpl; auto.
+  - unfold fd_ino. destruct (sfd s fd) as [[i o|d g]|] eqn:E; simpl; auto.
     destruct (N.eq_dec ino i) as [->|Hn].
     + right. right. right. left. exists fd, (W off len), 0. rewrite E, updN_same. split; [auto|]. split; [auto|]. right. left. eauto.
     + rewrite updN_other by assumption. auto.
-  - unfold fd_ino. destruct (sfd s fd) as [[i o|d]|] eqn:E; simpl; auto.
+  - unfold fd_ino. destruct (sfd s fd) as [[i o|d g]|] eqn:E; simpl; auto.
     destruct (N.eq_dec ino i) as [->|Hn].
     + right. right. right. left. exists fd, (T len), 0. rewrite E, updN_same. split; [auto|]. split; [auto|]. right. right. eauto.
     + rewrite updN_other by assumption. auto.
-  - destruct (sfd s fd) as [[i o|d]|] eqn:E; simpl; auto.
-    destruct (N.eq_dec ino i) as [->|Hn].
-    + right. right. right. right. exists fd. rewrite updN_same. auto.
-    + rewrite updN_other by assumption. auto.
+  - destruct (sfd s fd) as [[i o|d g]|] eqn:E; simpl; auto.
+    + destruct (N.eq_dec ino i) as [->|Hn].
+      * right. right. right. right. exists fd. rewrite updN_same. auto.
+      * rewrite updN_other by assumption. auto.
+    + destruct (N.eqb g (sgen s d)); simpl; auto.
   - destruct (svol s src); simpl; auto.
   - destruct (svol s p); simpl; auto.
 Qed.
@@ -269,6 +287,15 @@ Proof.
     { destruct Hc as [->|[(o & l & ->)|(l & ->)]]; exact Hg. }
     unfold guard_write in Hw. rewrite Hf, Hp in Hw. discriminate.
   - destruct H as (fd & -> & ->). reflexivity.
+Qed.
+
+Lemma dir_dead_present m d q :
+  dir_dead m d = true -> In q (mack m ++ mever m ++ mknown m) -> present_all (mfs m) q ->
+  in_dir d q = false.
+Proof.
+  intros Hd Hin ([a Ha] & _). unfold dir_dead in Hd. rewrite forallb_forall in Hd.
+  specialize (Hd _ Hin). rewrite Ha in Hd. simpl in Hd.
+  destruct (in_dir d q); [discriminate|reflexivity].
 Qed.
 
 Lemma Inv_step m c : Inv m -> guard m c = 0 -> Inv (mstep m c).
@@ -327,7 +354,10 @@ Proof.
     destruct Hcase as [[Hold Hnu]|(-> & Hf & Hp)].
     + destruct (inv_ack _ HI _ Hold) as [Hf Hp]. split; [assumption|].
       apply present_all_step; try assumption.
-      intros dst ->. simpl in Hg. rewrite Hf in Hg. discriminate.
+      * intros dst ->. simpl in Hg. rewrite Hf in Hg. discriminate.
+      * intros d Hd. eapply dir_dead_present; eauto.
+        -- destruct Hd as [->| ->]; simpl in Hg; destruct (dir_dead m d); auto; discriminate.
+        -- apply in_or_app. left. exact Hold.
     + split; [assumption|]. simpl. assumption.
   - (* inv_publt *)
     intros ino Hp. rewrite mfs_mstep.
@@ -352,10 +382,11 @@ Proof.
         -- rewrite updP_same in Hv. inversion Hv. lia.
         -- rewrite updP_other in Hv by assumption. apply (inv_vollt _ HI) in Hv. lia.
     + destruct (svol (mfs m) p0); simpl in Hv |- *; apply (inv_vollt _ HI) in Hv; assumption.
-    + destruct (sfd (mfs m) fd) as [[i o|d]|]; simpl in Hv |- *; apply (inv_vollt _ HI) in Hv; assumption.
-    + destruct (sfd (mfs m) fd) as [[i o|d]|]; simpl in Hv |- *; apply (inv_vollt _ HI) in Hv; assumption.
-    + destruct (sfd (mfs m) fd) as [[i o|d]|]; simpl in Hv |- *; apply (inv_vollt _ HI) in Hv; assumption.
-    + destruct (sfd (mfs m) fd) as [[i o|d]|]; simpl in Hv |- *; apply (inv_vollt _ HI) in Hv; assumption.
+    + destruct (sfd (mfs m) fd) as [[i o|d g]|]; simpl in Hv |- *; apply (inv_vollt _ HI) in Hv; assumption.
+    + destruct (sfd (mfs m) fd) as [[i o|d g]|]; simpl in Hv |- *; apply (inv_vollt _ HI) in Hv; assumption.
+    + destruct (sfd (mfs m) fd) as [[i o|d g]|]; simpl in Hv |- *; apply (inv_vollt _ HI) in Hv; assumption.
+    + destruct (sfd (mfs m) fd) as [[i o|d g]|]; simpl in Hv |- *; try (apply (inv_vollt _ HI) in Hv; assumption).
+      destruct (N.eqb g (sgen (mfs m) d)); simpl in Hv |- *; apply (inv_vollt _ HI) in Hv; assumption.
     + destruct (svol (mfs m) src) eqn:E; simpl in Hv |- *.
       * destruct (path_dec p dst) as [->|Hn].
         -- rewrite updP_same in Hv. inversion Hv; subst. apply (inv_vollt _ HI) in E. assumption.
@@ -369,6 +400,8 @@ Proof.
         -- rewrite updP_same in Hv. discriminate.
         -- rewrite updP_other in Hv by assumption. apply (inv_vollt _ HI) in Hv. assumption.
       * apply (inv_vollt _ HI) in Hv. assumption.
+    + destruct (in_dir d p); [discriminate|]. apply (inv_vollt _ HI) in Hv. assumption.
+    + destruct (in_dir d p); [discriminate|]. apply (inv_vollt _ HI) in Hv. assumption.
 Qed.
 
 (** ** Accepted traces keep the invariant at every prefix *)
